@@ -188,6 +188,10 @@ def check(run):
     sysgen.POOLS["space"] = ["cm", "mm", "dmm", "cmm", "µm", "nm", "dm"]
     n = 140 if run.tier == "quick" else 1200
     cases = [make_case(rng, run.tier) for _ in range(n)]
+    # a share of runs in which chemostated entries matter as sources ("exempt from the change but not from the propensity"):
+    # a well stocked flagged cell or species next to nearly empty free ones, diffusion setting the pace
+    from . import c03
+    cases += [c03.make_reservoir_case(rng, run.tier) for _ in range(n // 4)]
     items = build_items(cases, run)
     for it in items:
         c = it["case"]
@@ -196,7 +200,7 @@ def check(run):
         for r in c["desc"]["reactions"]:
             run.count("order:%d" % sum(r["sub"].values()))
     run.rule = ("random systems (orders 0..3 with repeated reactants, per-environment constants incl. zeros, grids with all boundary mixes incl. "
-                "periodic axes of length 1 and 2, graphs, chemostat maps, integer molecule counts), Gillespie (3-60 events) and tau-leap (3-12 "
+                "periodic axes of length 1 and 2, graphs, chemostat maps, integer molecule counts; a fifth of the runs with a well stocked chemostated cell or species as the only source), Gillespie (3-60 events) and tau-leap (3-12 "
                 "leaps, time step tuned so that means stay below 12): the engine records every state and time (on_iteration); Coq derives "
                 "the uniforms from the seed (mt19937, generate_canonical), predicts every Gillespie event from u1 * a0 against the cumulative "
                 "propensities in scanning order, checks exp(-a0 (d +- delta)) around u2 for every waiting time d, predicts every tau-leap "
